@@ -1264,6 +1264,7 @@ LinkLayerPrimaryBalanced_handleMessage(LinkLayerPrimaryBalanced self, uint8_t fc
 
             self->lastSendTime = Hal_getMonotonicTimeInMs();
             self->waitingForResponse = true;
+            self->nextFcb = true;
             newState = PLL_EXECUTE_RESET_REMOTE_LINK;
             llpb_setNewState(self, LL_STATE_BUSY);
         }
@@ -1353,6 +1354,7 @@ LinkLayerPrimaryBalanced_runStateMachine(LinkLayerPrimaryBalanced self)
 
             self->lastSendTime = currentTime;
             self->waitingForResponse = true;
+            self->nextFcb = true;
             newState = PLL_EXECUTE_RESET_REMOTE_LINK;
         }
 
@@ -1861,6 +1863,7 @@ LinkLayerSlaveConnection_HandleMessage(LinkLayerSlaveConnection self, uint8_t fc
 
             self->lastSendTime = Hal_getMonotonicTimeInMs();
             self->waitingForResponse = true;
+            self->nextFcb = true;
             newState = PLL_EXECUTE_RESET_REMOTE_LINK;
 
             llsc_setState(self, LL_STATE_BUSY);
